@@ -23,6 +23,7 @@ type Case struct {
 	B     model.Schema     `json:"b"`
 	Rows  map[string][]Row `json:"rows"` // table -> rows (every table has the key column k)
 	Edits []string         `json:"edits"`
+	NoTx  bool             `json:"no_tx,omitempty"` // apply through Driver.ApplyChanges without a transaction (foreign keys stay enforced)
 }
 
 type Outcome struct {
@@ -187,6 +188,11 @@ func checkCase(c Case) (Outcome, error) {
 	if err := db.Exec(c.A.DDL(model.StyleNative)...); err != nil {
 		return out, fmt.Errorf("harness: generated DDL rejected by SQLite: %v", err)
 	}
+	// rows are inserted with enforcement off so that children may be listed before their parents; every reference
+	// the generator writes points at an existing parent row
+	if err := db.Exec("PRAGMA foreign_keys = off"); err != nil {
+		return out, fmt.Errorf("harness: %v", err)
+	}
 	for _, t := range c.A.Tables {
 		for _, r := range c.Rows[t.Name] {
 			var cols, vals []string
@@ -202,6 +208,9 @@ func checkCase(c Case) (Outcome, error) {
 				return out, nil
 			}
 		}
+	}
+	if err := db.Exec("PRAGMA foreign_keys = on"); err != nil {
+		return out, fmt.Errorf("harness: %v", err)
 	}
 	ref, err := eng.New(ctx)
 	if err != nil {
@@ -255,7 +264,11 @@ func checkCase(c Case) (Outcome, error) {
 			out.RowsIn += len(s.rows)
 		}
 	}
-	if err := db.Apply(ctx, changes); err != nil {
+	apply := db.Apply
+	if c.NoTx {
+		apply = db.ApplyNoTx
+	}
+	if err := apply(ctx, changes); err != nil {
 		if isDataError(err) {
 			out.Rejected = "data-caused engine failure"
 			// all-or-nothing: the failed apply must not have changed anything (C13 looks at this through the CLI)
@@ -306,6 +319,10 @@ func checkCase(c Case) (Outcome, error) {
 				if brow[col] == "NULL" && ai.notnull && ai.dflt.Valid {
 					want, err := defaultAs(db.Raw, ai.typ, ai.dflt.String)
 					if err == nil && want == arow[col] {
+						continue
+					}
+					// CURRENT_TIMESTAMP / CURRENT_DATE / CURRENT_TIME are evaluated when the statement runs: any non-NULL value is the default
+					if err == nil && strings.Contains(strings.ToUpper(ai.dflt.String), "CURRENT_") && arow[col] != "NULL" {
 						continue
 					}
 					return out, fmt.Errorf("table %q row k=%s column %q: NULL became %s, expected the new default %s (%v)\n  plan:\n%s", name, k, col, arow[col], want, err, ptxt.String())
